@@ -36,7 +36,10 @@ RULE = ("measure: every T in 0..60 (130 thorough) x sampling period none,1..12 (
         "temper: every T in 0..60 (100) x swap period 1..12 (16) x sampling period 1..12 (16), 1..5 mock replicas with "
         "scripted n and scripted swap decisions, serial driver on all and parallel driver on a third (all in thorough), "
         "plus random cases with periods > T, 0..8 replicas; ising: real QmcIsingGraph samplers / tempering containers "
-        "against a clone advanced one step at a time; itime: imaginary_time_fold on real Ising and generic samplers; "
+        "against a clone advanced one step at a time; generic: real generic Qmc samplers with a non-zero energy offset of either "
+        "sign (built with make_*_interaction_and_offset and by into_qmc, with and without longitudinal field) through "
+        "timesteps / timesteps_sample / timesteps_measure and both tempering drivers (offset differing from slot to slot), "
+        "returned energy vs -<n>/beta + get_offset() from a manual timestep loop; itime: imaginary_time_fold on real Ising and generic samplers; "
         "edge: excluded inputs run once. Non-trivial = at least one sample taken (measure) / at least one replica and "
         "one step (temper) / at least one operator (itime); distinct = distinct full input line.")
 
@@ -46,7 +49,7 @@ def main(ck):
     if ck.lake_build(LEAN_TARGETS):
         ck.audit("QmcProps.C17", ["Qmc.C17." + t for t in THEOREMS])
     if ck.cargo_build(BINS):
-        for mode in ["measure", "temper", "ising", "itime", "edge"]:
+        for mode in ["measure", "temper", "ising", "generic", "itime", "edge"]:
             cases = ck.harness("c17", [mode])
             ck.correspond(mode, "drv_c17", cases)
     ck.assumptions += [
